@@ -265,6 +265,7 @@ class PfWorld:
         self.step_cap = 5000
         self.steps = 0
         self._installed = None
+        self._zombie = False
 
     # -- helpers
     def rel(self, path):
@@ -284,6 +285,9 @@ class PfWorld:
     def seam_write(self, path):
         p = self.proc
         if p is None:
+            if self._zombie:
+                # a thread of a simulated process that has been killed: dead processes write nothing
+                raise kernel.SimCrash('write attempted by a thread of a killed process')
             return
         if p.scheduler is not None:
             p.scheduler.yield_point('write')
@@ -381,7 +385,7 @@ class PfWorld:
         plan = self.plan
         cfg = plan['cfg']
         self.root = scratch_dir('pf')
-        self.chars = content.charset(cfg['nchars'], cfg.get('space', False))
+        self.chars = content.charset(cfg['nchars'], cfg.get('space', False), cfg.get('charset', 'ascii'))
         cdir = os.path.join(self.root, 'cfg')
         os.makedirs(cdir)
         mode = plan['mode']
@@ -392,6 +396,12 @@ class PfWorld:
             extra['LINE_CROPPER'] = {'INTERP': str(cfg.get('interp', 2)), 'LINE_SCALE': '1', 'LINE_HEIGHT': str(stubocr.LINE_HEIGHT)}
         if mode == 'ocr':
             pp['RUN_OCR'] = 'yes'
+        if mode in ('ocr', 'crop') and cfg.get('postprocess'):
+            # a layout-parser stage that only post-processes the lines given in the input PAGE XML
+            pp['RUN_LAYOUT_PARSER'] = 'yes'
+            extra['LAYOUT_PARSER_1'] = {'METHOD': 'LINE_POSTPROCESSING', 'STRETCH_LINES': str(cfg['postprocess'].get('stretch', 4)),
+                                        'RESAMPLE_LINES': 'yes' if cfg['postprocess'].get('resample') else 'no',
+                                        'HEIGHTS_FROM_REGIONS': 'no'}
         if mode == 'layout':
             pp['RUN_LAYOUT_PARSER'] = 'yes'
             pp['RUN_LINE_CROPPER'] = 'yes' if 'lines' in plan['outputs'] else 'no'
@@ -406,6 +416,7 @@ class PfWorld:
         dcfg.setdefault('nchars', cfg['nchars'])
         dcfg['space'] = cfg.get('space', False)
         dcfg['nchars'] = cfg['nchars']
+        dcfg['charset'] = cfg.get('charset', 'ascii')
         if not run_decoder:
             dcfg.setdefault('type', 'GREEDY')
         self.ini = write_decoder_config(cdir, dcfg, run_decoder=run_decoder, extra_sections=extra)
@@ -453,7 +464,8 @@ class PfWorld:
                                 'id': ln.get('id', 'l%03d' % j), 'descenders': ln.get('descenders', False)},
                                **({'hsplit': ln['hsplit']} if ln.get('hsplit') else {}))
                           for j, ln in enumerate(p['lines'])],
-                'regions': p.get('regions', 1), 'curved': p.get('curved', False), 'canvas': p.get('canvas')}
+                'regions': p.get('regions', 1), 'curved': p.get('curved', False), 'canvas': p.get('canvas'),
+                'tilt': p.get('tilt', 0)}
 
     def logit_layout(self, p):
         """Layout with generated logits whose line geometry matches the painted image."""
@@ -558,6 +570,8 @@ class PfWorld:
         _random.seed(spec.get('rng_seed', 0))
         numpy.random.seed(spec.get('rng_seed', 0) % (2 ** 31))
         so, se = io.StringIO(), io.StringIO()
+        import threading
+        threads_before = set(threading.enumerate())
         restore_ocr = None
         if spec.get('ocr_oom_at') is not None:
             # transient allocation failure inside the OCR network call (what a full GPU does)
@@ -588,6 +602,17 @@ class PfWorld:
             p.exit = 'exc:%s' % type(e).__name__
             p.exc_text = '%s: %s' % (type(e).__name__, e)
         finally:
+            extra = [t for t in threading.enumerate() if t not in threads_before and t is not threading.current_thread()]
+            if extra:
+                # the code under test started threads of its own.  A killed process takes them with it (they may
+                # not write any more); an exiting interpreter waits for them (their queued writes still happen).
+                self.res.fault('threads_started_by_code_under_test', len(extra))
+                if p.exit == 'killed' or p.killed:
+                    self.proc = None
+                    self._zombie = True
+                for t in extra:
+                    t.join(timeout=2.0)
+                self._zombie = False
             self.proc = None
             if restore_ocr is not None:
                 restore_ocr[0].run_ocr = restore_ocr[1]
